@@ -169,6 +169,38 @@ fn eval_uid(l: &PsetL, upd: &str) -> Out {
     Out { result: res, pred_fail }
 }
 
+/// `upd <pset> <target>:<entry>;<entry>...` — several fields added at one position; reports whether the unique id and the extracted
+/// transaction changed.  Predicate: revealing an explicit value (plus its blind proof) next to an EXISTING commitment — issuance amount,
+/// inflation keys, output amount, output asset — must change neither (the commitment stays what is extracted).
+fn eval_upd(l: &PsetL, upd: &str) -> Out {
+    let (tgt, ent) = match upd.split_once(':') { Some(x) => x, None => return Out::ok("harnesserr update".into()) };
+    let es = match parse_map(ent) { Some(m) if !m.is_empty() => m, _ => return Out::ok("harnesserr update entries".into()) };
+    let mut l2 = l.clone();
+    let (map, pos): (&str, usize) = match tgt.as_bytes()[0] { b'G' => ("G", 0), b'I' => ("I", tgt[1..].parse().unwrap_or(0)), _ => ("O", tgt[1..].parse().unwrap_or(0)) };
+    let before: MapL;
+    {
+        let m = match map { "G" => &mut l2.g, "I" => match l2.ins.get_mut(pos) { Some(m) => m, None => return Out::ok("harnesserr pos".into()) }, _ => match l2.outs.get_mut(pos) { Some(m) => m, None => return Out::ok("harnesserr pos".into()) } };
+        before = m.clone();
+        for e in &es { put(m, e.clone()); }
+    }
+    let (p, q) = match (from_model(l), from_model(&l2)) { (Ok(p), Ok(q)) => (p, q), (Err(e), _) | (_, Err(e)) => return Out::ok(format!("harnesserr {}", e)) };
+    let id = |p: &Pset| match catch_unwind(AssertUnwindSafe(|| p.unique_id())) { Ok(Ok(t)) => Ok(t.to_string()), Ok(Err(e)) => Err(err_class(&e)), Err(_) => Err("panic".into()) };
+    let ex = |p: &Pset| match catch_unwind(AssertUnwindSafe(|| p.extract_tx())) { Ok(Ok(t)) => format!("ok {}", show_tx(&t)), Ok(Err(e)) => format!("err {}", err_class(&e)), Err(_) => "panic".to_string() };
+    let (a, b) = (id(&p), id(&q));
+    let uid_res = match (&a, &b) { (Ok(x), Ok(y)) => if x == y { "same".to_string() } else { "changed".to_string() }, (Err(x), Err(y)) if x == y => format!("same-err {}", x), (x, y) => format!("differ {} {}", x.as_ref().map(|_| "ok").unwrap_or_else(|e| e), y.as_ref().map(|_| "ok").unwrap_or_else(|e| e)) };
+    let tx_same = ex(&p) == ex(&q);
+    // is this update a reveal of explicit values next to commitments that were already there?
+    let has = |n: &str| before.iter().any(|e| e.name == n);
+    let reveal = es.iter().all(|e| match (map, e.name.as_str()) {
+        ("I", "issuance_value_amount") => has("issuance_value_comm"), ("I", "issuance_inflation_keys") => has("issuance_inflation_keys_comm"),
+        ("O", "amount") => has("amount_comm"), ("O", "asset") => has("asset_comm"),
+        ("I", "in_issuance_blind_value_proof") | ("I", "in_issuance_blind_inflation_keys_proof") | (_, "blind_value_proof") | (_, "blind_asset_proof") => true,
+        _ => false }) && es.iter().all(|e| !has(&e.name));
+    let pred_fail = if reveal && !tx_same { Some(format!("explicit-value-changes-extraction|adding the explicit {} (and its proof) next to an existing commitment changes the extracted transaction", es[0].name)) }
+        else if reveal && a != b { Some(format!("explicit-value-changes-unique-id|adding the explicit {} next to an existing commitment changes the unique id", es[0].name)) } else { None };
+    Out { result: format!("uid={} tx={}", uid_res, if tx_same { "same" } else { "changed" }), pred_fail }
+}
+
 pub fn eval(case: &str) -> Out {
     let w: Vec<&str> = case.split(' ').collect();
     match (w.get(1).copied(), w.len()) {
@@ -176,6 +208,7 @@ pub fn eval(case: &str) -> Out {
         (Some("ex"), 3) => match parse(w[2]) { Some(l) => eval_ex(&l), None => Out::ok("harnesserr parse".into()) },
         (Some("rt"), 3) => match parse_tx(w[2]) { Some(t) => eval_rt(&t), None => Out::ok("harnesserr parse tx".into()) },
         (Some("uid"), 4) => match parse(w[2]) { Some(l) => eval_uid(&l, w[3]), None => Out::ok("harnesserr parse".into()) },
+        (Some("upd"), 4) => match parse(w[2]) { Some(l) => eval_upd(&l, w[3]), None => Out::ok("harnesserr parse".into()) },
         _ => Out::ok("harnesserr kind".into()),
     }
 }
@@ -278,6 +311,59 @@ pub fn gen(rng: &mut ChaCha20Rng, n: usize, thorough: bool) -> Vec<Case> {
         if rng.gen_bool(0.15) && !l.outs.is_empty() { let f = ["amount", "asset"][rng.gen_range(0..2)]; l.outs[0].retain(|e| e.name != f); }
         let l = normalise(&l).expect("listing");
         out.push(Case { text: format!("C08 ex {}", show(&l)), tags: vec!["ex".into(), format!("ins:{}", l.ins.len()), format!("outs:{}", l.outs.len())], nontrivial: true });
+    }
+    // (3b) extract_tx where the explicit field and the commitment are BOTH present (or one, or none): issuance amount x inflation keys on an
+    //      input, and amount x asset on an output — every presence combination of {none, explicit, commitment, both} x {the same}
+    let states = ["none", "explicit", "comm", "both"];
+    for (sa, a_state) in states.iter().enumerate() {
+        for (sk, k_state) in states.iter().enumerate() {
+            let mut l = to_model(&base_pset(rng, 2, 1));
+            let pos = rng.gen_range(0..2);
+            if sa & 1 != 0 { put(&mut l.ins[pos], sample(rng, &pool, "I", "issuance_value_amount")); }
+            if sa & 2 != 0 { put(&mut l.ins[pos], sample(rng, &pool, "I", "issuance_value_comm")); }
+            if sk & 1 != 0 { put(&mut l.ins[pos], sample(rng, &pool, "I", "issuance_inflation_keys")); }
+            if sk & 2 != 0 { put(&mut l.ins[pos], sample(rng, &pool, "I", "issuance_inflation_keys_comm")); }
+            if rng.gen() { put(&mut l.ins[pos], sample(rng, &pool, "I", "issuance_asset_entropy")); }
+            if rng.gen_bool(0.3) { put(&mut l.ins[pos], sample(rng, &pool, "I", "issuance_blinding_nonce")); }
+            let l = normalise(&l).expect("listing");
+            out.push(Case { text: format!("C08 ex {}", show(&l)), tags: vec!["ex".into(), format!("iss-amount:{}", a_state), format!("iss-keys:{}", k_state)], nontrivial: true });
+            let mut l = to_model(&base_pset(rng, 1, 2));
+            let pos = rng.gen_range(0..2);
+            l.outs[pos].retain(|e| e.name != "amount" && e.name != "asset");
+            if sa & 1 != 0 { put(&mut l.outs[pos], sample(rng, &pool, "O", "amount")); }
+            if sa & 2 != 0 { put(&mut l.outs[pos], sample(rng, &pool, "O", "amount_comm")); }
+            if sk & 1 != 0 { put(&mut l.outs[pos], sample(rng, &pool, "O", "asset")); }
+            if sk & 2 != 0 { put(&mut l.outs[pos], sample(rng, &pool, "O", "asset_comm")); }
+            let l = normalise(&l).expect("listing");
+            out.push(Case { text: format!("C08 ex {}", show(&l)), tags: vec!["ex".into(), format!("out-amount:{}", a_state), format!("out-asset:{}", k_state)], nontrivial: true });
+        }
+    }
+    // (3c) a later role reveals the explicit value (and its blind proof) next to an existing commitment: issuance amount, inflation keys,
+    //      output amount, output asset — unique id and extracted transaction must not change
+    for rep in 0..(if thorough { 6 } else { 2 }) {
+        let mut l = to_model(&base_pset(rng, 2, 2));
+        let (ip, op) = (rep % 2, (rep / 2) % 2);
+        for f in ["issuance_value_comm", "issuance_inflation_keys_comm", "issuance_asset_entropy", "issuance_value_rangeproof", "issuance_keys_rangeproof"] { put(&mut l.ins[ip], sample(rng, &pool, "I", f)); }
+        for f in ["amount_comm", "asset_comm", "ecdh_pubkey", "value_rangeproof", "asset_surjection_proof"] { put(&mut l.outs[op], sample(rng, &pool, "O", f)); }
+        l.outs[op].retain(|e| e.name != "amount" && e.name != "asset");
+        let l = normalise(&l).expect("listing");
+        let ups: Vec<(String, &str, Vec<&str>)> = vec![
+            (format!("I{}", ip), "I", vec!["issuance_value_amount", "in_issuance_blind_value_proof"]),
+            (format!("I{}", ip), "I", vec!["issuance_inflation_keys", "in_issuance_blind_inflation_keys_proof"]),
+            (format!("I{}", ip), "I", vec!["issuance_inflation_keys"]),
+            (format!("I{}", ip), "I", vec!["issuance_value_amount", "issuance_inflation_keys", "in_issuance_blind_value_proof", "in_issuance_blind_inflation_keys_proof"]),
+            (format!("O{}", op), "O", vec!["amount", "blind_value_proof"]),
+            (format!("O{}", op), "O", vec!["asset", "blind_asset_proof"]),
+            (format!("O{}", op), "O", vec!["amount", "asset", "blind_value_proof", "blind_asset_proof"]),
+        ];
+        for (tgt, map, fs) in ups {
+            let es: MapL = fs.iter().map(|f| sample(rng, &pool, map, f)).collect();
+            out.push(Case { text: format!("C08 upd {} {}:{}", show(&l), tgt, show_map(&es)), tags: vec!["upd".into(), format!("reveal:{}.{}", map, fs[0])], nontrivial: true });
+        }
+        // control: the same explicit values WITHOUT a commitment being there do change the transaction (no predicate; model must agree)
+        let l0 = to_model(&base_pset(rng, 1, 1));
+        let es: MapL = vec![sample(rng, &pool, "I", "issuance_inflation_keys")];
+        out.push(Case { text: format!("C08 upd {} I0:{}", show(&l0), show_map(&es)), tags: vec!["upd".into(), "control:no-commitment".into()], nontrivial: true });
     }
     // (4) unique id before/after every field addition (all fields, neutral or not; on plain and on from_tx-style PSETs)
     let rounds = if thorough { 6 } else { 1 };
